@@ -350,6 +350,22 @@ func c08Gen(tier string, seed int64) []core.Case {
 			ph["flip"], ph["hold"] = sp.Short, true
 			idh := "flagflip-only/" + proto + "/" + sp.Short
 			cs = append(cs, core.Case{ID: idh, Class: idh, Kind: "flip", P: ph, Cost: flipCfg[proto].cost})
+			// third variant: the genuine copy first, the wrong-channel copy directly after it (a duplicate that took the other path)
+			ca := flipCfg[proto]
+			switch proto { // with a single peer every delivery closes the round
+			case "ecdsa-keygen":
+				ca = sessCfg{"ecdsa-keygen", 3, 1, nil, 0, 0, "small", 8}
+			case "eddsa-signing":
+				ca = sessCfg{"eddsa-signing", 3, 1, []int{0, 1, 2}, 0, 0, "seeded", 0.4}
+			case "ecdsa-resharing":
+				ca = sessCfg{"ecdsa-resharing", 5, 2, []int{0, 1, 2}, 3, 1, "vendored", 9}
+			case "eddsa-resharing":
+				ca = sessCfg{"eddsa-resharing", 3, 1, []int{0, 1}, 3, 1, "seeded", 0.8}
+			}
+			pa := ca.P()
+			pa["flip"], pa["after"] = sp.Short, true
+			ida := "flagflip-after/" + proto + "/" + sp.Short
+			cs = append(cs, core.Case{ID: ida, Class: ida, Kind: "flip", P: pa, Cost: ca.cost})
 		}
 	}
 	return cs
@@ -434,6 +450,8 @@ func c08Run(c core.Case, env *core.Env) core.Result {
 	if c.Kind == "flip" {
 		if c.P.Bool("hold") {
 			release = c08FlipOnly(&r, w, c.P.Str("flip"))
+		} else if c.P.Bool("after") {
+			c08FlipAfter(&r, w, c.P.Str("flip"))
 		} else {
 			c08Flip(&r, w, c.P.Str("flip"))
 		}
@@ -514,6 +532,59 @@ func c08Flip(r *core.Result, w *sim.World, typ string) {
 			if !still {
 				r.Fail("flip:not-awaited:"+typ, "%s no longer awaits %s after receiving its %s on the wrong channel kind", n.Name, ev.Msg.From.Name, typ)
 			}
+		}
+	})
+}
+
+// c08FlipAfter hands every message of type `typ` over twice: the genuine copy, and directly after it (before anything else
+// happens, provided the sender is no longer awaited) a copy with the broadcast flag inverted. The second copy must change nothing: no send, no round change, the same
+// set of awaited peers; the run then has to complete like any other.
+func c08FlipAfter(r *core.Result, w *sim.World, typ string) {
+	busy := false
+	sp := sim.SpecOf(w.Proto, typ)
+	stored := map[string]*sim.Event{} // recipient|sender -> the genuine delivery of typ
+	done := map[string]bool{}
+	w.AfterStep = append(w.AfterStep, func(ev *sim.Event) {
+		if busy || sp == nil || ev.Kind != sim.EvDeliver || ev.Tag != "" || ev.Msg == nil {
+			return
+		}
+		n := ev.Node
+		key := n.Name + "|" + ev.Msg.From.Name
+		if ev.Msg.Short == typ {
+			stored[key] = ev
+		}
+		g := stored[key]
+		if g == nil || done[key] || !n.Started || len(n.Ended) > 0 || len(n.Errors) > 0 || roundOf(n) != sp.Round {
+			return
+		}
+		waitSet := func() string {
+			var ks []string
+			for _, pid := range n.Party.WaitingFor() {
+				ks = append(ks, pid.KeyInt().Text(16))
+			}
+			sort.Strings(ks)
+			return strings.Join(ks, ",")
+		}
+		round0, sent0, wait0 := roundOf(n), len(n.SentTypes), waitSet()
+		if strings.Contains(","+wait0+",", ","+g.Msg.From.PID.KeyInt().Text(16)+",") {
+			// the sender is still awaited (the other message of a two-message round is missing): a wrong-channel copy now
+			// replaces the stored genuine one, which only harms the sender itself (DESIGN 6.5); the window looked at here
+			// is the one in which the sender's part of the round is complete and the round is still open
+			return
+		}
+		done[key] = true
+		busy = true
+		w.Inject(&sim.Event{Kind: sim.EvDeliver, Node: n, Msg: g.Msg, Wire: g.Wire, Bcast: !g.Bcast, FromPID: g.FromPID, Tag: "flipdup"})
+		w.Exec(len(w.Pending) - 1)
+		busy = false
+		r.Count("flag_flips_checked", 1)
+		if len(n.SentTypes) != sent0 {
+			r.Fail("flip-after:sent:"+typ, "%s sent %v in response to a second copy of %s delivered with the broadcast flag inverted", n.Name, n.SentTypes[sent0:], typ)
+		}
+		if cur := roundOf(n); cur != round0 {
+			r.Fail("flip-after:round:"+typ, "%s moved from round %d to %d on a second copy of %s delivered with the broadcast flag inverted", n.Name, round0, cur, typ)
+		} else if w1 := waitSet(); w1 != wait0 {
+			r.Fail("flip-after:waiting:"+typ, "%s awaited {%s} once everything from %s had arrived, and awaits {%s} after a second copy of its %s with the broadcast flag inverted", n.Name, wait0, g.Msg.From.Name, w1, typ)
 		}
 	})
 }
